@@ -261,8 +261,8 @@ def _term_snap(t) -> tuple:
             items.append((k, cv(v)))
         elif isinstance(v, dict):
             items.append((k, tuple((a, fx(b)) for a, b in sorted(v.items()))))
-        elif isinstance(v, (float, np.floating)):
-            items.append((k, fx(v)))
+        elif isinstance(v, (float, np.floating)) or (isinstance(v, (int, np.integer)) and not isinstance(v, bool)):
+            items.append((k, fx(v)))  # 1 and 1.0 are the same parameter value
         else:
             items.append((k, str(v)))
     if isinstance(t, fl.Function):
@@ -273,7 +273,8 @@ def _term_snap(t) -> tuple:
 def _obj_snap(o) -> tuple:
     if o is None:
         return ("None",)
-    return (type(o).__name__,) + tuple((k, fx(v) if isinstance(v, float) else str(v)) for k, v in sorted(vars(o).items()) if not k.startswith("_sim"))
+    return (type(o).__name__,) + tuple((k, fx(v) if isinstance(v, (float, int)) and not isinstance(v, bool) else str(v))
+                                       for k, v in sorted(vars(o).items()) if not k.startswith("_sim"))
 
 
 def snapshot(engine, flags: bool = True) -> tuple:
@@ -513,7 +514,11 @@ def apply_replace_term(engine, op: dict, spec_after: dict) -> None:
     if not v.terms:
         return
     ti = op["ti"] % len(v.terms)
-    term = S.build_term(sv["terms"][ti])
+    S._INT_PARAMS[0] = bool(spec_after.get("flags", {}).get("int_params"))
+    try:
+        term = S.build_term(sv["terms"][ti])
+    finally:
+        S._INT_PARAMS[0] = False
     term.update_reference(engine)
     v.terms[ti] = term
 
